@@ -38,6 +38,8 @@ pub mod test_output;
 mod time;
 #[cfg(feature = "self-update")]
 pub mod update;
+#[cfg(feature = "verif-hooks")]
+pub mod verif_hooks;
 pub mod write_str;
 
 pub use rustc_cli::RustcCli;
